@@ -157,7 +157,7 @@ pub fn run(ctx: &Ctx) {
     ctx.exhausted("all bool, u8, i8, u16, i16, char values");
 
     // (b) random trees
-    let n = ctx.tier.pick(40_000, 2_000_000);
+    let n = ctx.tier.pick(400_000, 6_000_000);
     ctx.par_proptest(
         "random-trees",
         n,
@@ -166,7 +166,7 @@ pub fn run(ctx: &Ctx) {
     );
 
     // (c) deep chains and wide aggregates
-    let n = ctx.tier.pick(4_000, 100_000);
+    let n = ctx.tier.pick(40_000, 400_000);
     ctx.par_proptest(
         "deep-chains",
         n,
